@@ -240,3 +240,18 @@ def spec_equal(a, b, attrs=True, abstract=True, types=True):
                 cmp(c, d, where + "/" + f["name"])
     cmp(a["root"], b["root"], "")
     return diffs
+
+
+# ------------------------------------------------------------------ ANTLR: the harness's own listener
+def SyntaxErrors():
+    """an ANTLR error listener that records every reported syntax error (independent of /repo's)"""
+    from antlr4.error.ErrorListener import ErrorListener
+
+    class _Listener(ErrorListener):
+        def __init__(self):
+            super().__init__()
+            self.errors = []
+
+        def syntaxError(self, recognizer, offendingSymbol, line, column, msg, e):  # noqa: N802,N803
+            self.errors.append(f"{line}:{column}: {msg}")
+    return _Listener()
